@@ -202,7 +202,9 @@ func runKeeper(cfg *runCfg) {
 			op := parkedOps[a.idx]
 			delete(parkedOps, a.idx)
 			fault := ""
-			if faultBudget > 0 && rng.Chance(1, 6) && op.Cmd != "find" {
+			// the deletes of Close are never failed: the model has no failing variant of them (a failed delete
+			// only leaves a record that expires by itself)
+			if faultBudget > 0 && rng.Chance(1, 6) && op.Cmd != "find" && op.Cmd != "delete" {
 				faultBudget--
 				fault = []string{"fail", "lost"}[rng.Intn(2)]
 			}
